@@ -71,15 +71,24 @@ func (v *Vue) evalSlot(ctx VueContext, node *html.Node, slotScope *SlotScope) ([
 		}
 	}
 
-	// Try to get provided slot content (from explicit include or inherited from layout)
-	if slotScope != nil {
-		if slotContent := slotScope.GetSlot(slotName); slotContent != nil {
-			// Found explicit slot content - evaluate it with the scoped props
+	// Try to get provided slot content: from the include this component was included with, else the
+	// content a page handed to its layout chain (passed via __slotScope__ in context data)
+	inherited, _ := ctx.stack.EnvMap()["__slotScope__"].(*SlotScope)
+	if slotScope != nil || inherited != nil {
+		if slotContent, fromPage := suppliedSlotContent(slotScope, inherited, slotName); slotContent != nil {
+			// Found supplied slot content - evaluate it with the scoped props
 			result := []*html.Node{}
 
 			// The content was written by the includer, so a <slot> inside it refers to the includer's
 			// slots, not to this instance's own content again (which would never end).
-			ctx.SlotScope = slotScope.Outer
+			if fromPage {
+				// the page has no slots of its own: its slots are hidden while its content is evaluated
+				ctx.SlotScope = nil
+				ctx.stack.Push(map[string]any{"__slotScope__": nil})
+				defer ctx.stack.Pop()
+			} else {
+				ctx.SlotScope = slotScope.Outer
+			}
 
 			// If the slot content is a template with v-slot, evaluate it with the props
 			if slotContent.TemplateNode != nil {
@@ -138,21 +147,6 @@ func (v *Vue) evalSlot(ctx VueContext, node *html.Node, slotScope *SlotScope) ([
 		}
 	}
 
-	// Check for inherited slots from layout (passed via __slotScope__ in context data)
-	if inheritedSlotScopeData, ok := ctx.stack.EnvMap()["__slotScope__"]; ok {
-		if inheritedSlotScope, ok := inheritedSlotScopeData.(*SlotScope); ok {
-			if slotContent := inheritedSlotScope.GetSlot(slotName); slotContent != nil {
-				// Use the inherited slot content as parsed, on a copy per use: the same nodes linked into
-				// the output twice make the sibling list circular and the serialiser never returns
-				nodes := make([]*html.Node, 0, len(slotContent.Nodes))
-				for _, n := range slotContent.Nodes {
-					nodes = append(nodes, helpers.DeepCloneNode(n))
-				}
-				return nodes, nil
-			}
-		}
-	}
-
 	// No explicit slot content - use fallback (children of the slot element)
 	if node.FirstChild != nil {
 		// Evaluate the fallback content
@@ -160,6 +154,20 @@ func (v *Vue) evalSlot(ctx VueContext, node *html.Node, slotScope *SlotScope) ([
 	}
 
 	return []*html.Node{}, nil
+}
+
+// suppliedSlotContent returns the content supplied for a slot name: what the include tag of this component
+// instance carries, else what the page handed to its layout chain (fromPage).
+func suppliedSlotContent(slotScope, inherited *SlotScope, name string) (content *SlotContent, fromPage bool) {
+	if slotScope != nil {
+		if content = slotScope.GetSlot(name); content != nil {
+			return content, false
+		}
+	}
+	if inherited != nil {
+		return inherited.GetSlot(name), true
+	}
+	return nil, false
 }
 
 // destructuredNames parses a destructuring pattern like "{ item, index }" into its names.
